@@ -29,9 +29,18 @@ LINK_FAULTS_PN53X = [("ErrorFrame", 0), ("HostTimeout", 0), ("NoAck", 0), ("BadA
                      ("ShortFrame", 6), ("CutTail", 0), ("BadChecksum", 0), ("WrongCode", 0)]
 LINK_FAULTS_ACR122 = [f for f in LINK_FAULTS_PN53X if f[0] not in ("NoAck", "BadAck")] + \
                      [("ShortFrame", 9), ("ShortFrame", 11)]
+CUT_LENS = range(6)          # well-formed frame, payload cut to k bytes (CutBodyX: extended frame, PN53x links only)
+
+
+def link_faults(driver):
+    fs = list(LINK_FAULTS_ACR122 if driver == "acr122" else LINK_FAULTS_PN53X) + [("CutBody", n) for n in CUT_LENS]
+    if driver in D.PN53X_LINK:
+        fs += [("CutBodyX", n) for n in CUT_LENS]
+    return fs
 UDP_SEND_FAULTS = [("HostIOW", 0), ("DeviceGone", 0), ("ShortSend", 0)]
 UDP_RECV_FAULTS = [("HostTimeout", 0), ("HostIO", 0), ("RfOff", 0), ("ShortFrame", 1), ("ShortFrame", 2),
-                   ("BadChecksum", 0), ("WrongCode", 0), ("Garbled", 1), ("Garbled", 2)]
+                   ("BadChecksum", 0), ("WrongCode", 0), ("Garbled", 1), ("Garbled", 2)] + \
+                  [("CutBody", n) for n in range(6)]
 QUICK_PREP_STATUS = (0, 1, 2, 255)
 REG_READS = ("ReadRegister", "ReadIRq", "ReadFIFOLevel", "ReadFIFOData")
 PN53X_FAM = ("pn531", "pn532", "pn533", "rcs956", "arygon", "acr122")
@@ -52,7 +61,7 @@ def faults_for(driver, cmd, final, tier):
     """The faults this tier injects at one host command (must equal DriverErr!SliceFaults -- TLC checks)."""
     if driver == "udp":
         return list(UDP_RECV_FAULTS if final else UDP_SEND_FAULTS)
-    fs = list(LINK_FAULTS_ACR122 if driver == "acr122" else LINK_FAULTS_PN53X)
+    fs = link_faults(driver)
     full = final or tier != "quick"
     if driver == "rcs380" and cmd in ("InCommRF", "TgCommRF"):
         fs += [("CommStatus", m) for m in (quick_masks() if tier == "quick" else range(4096))]
@@ -79,6 +88,8 @@ def sim_fault(driver, at, k, v):
          "WrongCode": ("wrongcode", 0)}
     if k in m:
         return P.Fault(at, *m[k])
+    if k in ("CutBody", "CutBodyX"):
+        return P.Fault(at, k.lower(), v)
     if k == "ShortFrame":
         return P.Fault(at, "short", v)
     if k == "ChipStatus":
@@ -94,7 +105,10 @@ def sim_fault(driver, at, k, v):
 
 def run_case(rig, kind, at, k, v):
     send, tmo = D.prepare(rig, kind)
-    rig.chip.arm(sim_fault(rig.driver, at, k, v) if at else None)
+    if at and rig.driver == "udp" and k == "CutBody":
+        rig.chip.arm(U.UFault(at, "raw", rig.net.reply[:max(0, min(v, len(rig.net.reply) - 1))]))
+    else:
+        rig.chip.arm(sim_fault(rig.driver, at, k, v) if at else None)
     o, x, val = D.classify(lambda: rig.clf.exchange(send, tmo))
     return o, x, val
 
@@ -147,7 +161,7 @@ def op_faults_for(driver, cmd, tier):
     if driver == "udp":
         return list({"bind": UDP_BIND_FAULTS, "sendto": UDP_SEND_FAULTS}.get(cmd, UDP_RECV_FAULTS))
     quick = tier == "quick"
-    fs = list(LINK_FAULTS_ACR122 if driver == "acr122" else LINK_FAULTS_PN53X)
+    fs = link_faults(driver)
     if driver == "rcs380" and cmd in ("InCommRF", "TgCommRF"):
         fs += [("CommStatus", m) for m in range(4096) if not quick or bin(m).count("1") <= 1]
     if op_has_status(driver, cmd):
@@ -168,6 +182,8 @@ def op_sim_fault(driver, kind, at, cmd, k, v):
              "HostTimeout": ("lost", 0), "HostIO": ("io", D.EIO), "RfOff": ("rfoff", 0)}
         if k in m:
             return O.UFault(at, *m[k])
+        if k == "CutBody":
+            return O.UFault(at, "cut", v)
         b = (OP.scenario(driver, kind).brty or OP.brty_of(kind)).encode()
         raw = {("ShortFrame", 1): b, ("ShortFrame", 2): b + b" 0", ("BadChecksum", 0): b + b" zz",
                ("WrongCode", 0): b"848B 00", ("Garbled", 1): b"\xff\xfe 00", ("Garbled", 2): b + b" 00 00"}[(k, v)]
@@ -229,6 +245,14 @@ def op_key_of(e, n):
         return "%s:send_command:no-answer->Hang" % fam
     if e["k"] in OP.CLOSE_KINDS:
         return "clf:%s:closed-while-waiting-for-the-lock->%s" % (meth, out)
+    if f in ("CutBody", "CutBodyX") and o != "Hang":
+        cut = "cut-body%s(%d)" % ("-ext" if f == "CutBodyX" else "", e["v"])
+        if e["v"] < 2 and fam != "udp":
+            site = {"pn53x": "Chipset.command", "rcs380": "send_command", "rcs956": "Chipset.command"}[fam]
+            return "%s:%s:%s->%s" % ("acr122" if d == "acr122" else family(d), site, cut, out)
+        if fam == "udp":
+            return "%s:%s:%s:%s->%s" % (fam, meth, e["c"], cut, out)
+        return "%s:%s:short-answer->%s" % (family(d), e["c"], out)
     if e["at"] == 0:
         if OP.scenario(d, e["k"]).expect == "Unsupported":
             return "%s:%s:unsupported-bitrate->%s" % (fam, meth, out)
@@ -262,6 +286,13 @@ def key_of(e, n):
     garble = f in ("ShortFrame", "CutTail", "BadChecksum", "Garbled")
     if o == "Hang":
         return "%s:send_command:no-answer->Hang" % fam
+    if f in ("CutBody", "CutBodyX") and o != "Hang":
+        cut = "cut-body%s(%d)" % ("-ext" if f == "CutBodyX" else "", e["v"])
+        if e["v"] < 2 and fam != "udp":                 # nothing of the answer left: the frame decoder's business
+            site = {"pn53x": "Chipset.command", "rcs380": "send_command"}[fam]
+            return "%s:%s:%s->%s" % ("acr122" if e["d"] == "acr122" else fam, site, cut, out)
+        # a shortened but well-formed answer: the chipset method of that host command is the site, whatever the operation
+        return "%s:%s:short-answer->%s" % (fam, e["c"], out)
     if garble and o == "Internal" and e["x"] in ("IndexError", "struct.error", "binascii.Error",
                                                   "UnicodeDecodeError"):
         site = {"pn53x": "Chipset.command", "rcs380": "Frame", "udp": "recvfrom"}[fam]
